@@ -473,12 +473,28 @@ func runParse(g *gctx, gr group) {
 	if key.Raw(&kb) != nil || (len(kb) != 16 && len(kb) != 24 && len(kb) != 32) {
 		return
 	}
-	alg := fmt.Sprintf("A%dGCM", len(kb)*8)
+	algs := []string{fmt.Sprintf("A%dGCM", len(kb)*8)}
+	if len(kb) == 32 {
+		algs = append(algs, "A128CBC-HS256", "C20P") // the AEAD object built from the caller's bytes is short-lived
+	}
+	for ai, alg := range algs {
+		if ai > 0 && (g.round+ai)%3 != 0 {
+			continue
+		}
+		useParsedKey(g, f, key, raw, alg)
+	}
+}
+
+// useParsedKey encrypts and decrypts with the key ParseKey returned while the
+// caller's raw buffer (which the key may reference) stays watched.
+func useParsedKey(g *gctx, f keyForm, key jwk.Key, raw *warg, alg string) {
+	sp, _ := specFor(alg)
+	encFn, decFn := "crypto.EncryptSymmetric["+sp.fam+"]", "crypto.DecryptSymmetric["+sp.fam+"]"
 	pt := g.data(blockLens[g.round%len(blockLens)], 2)
-	nonceB := g.data(12, 3)
+	nonceB := g.data(sp.nonceLen, 3)
 	pta := g.argOrNil("plaintext", pt, 1)
 	nonce := g.arg("nonce", nonceB, 2)
-	c = g.newCall("crypto.EncryptSymmetric[GCM]", alg, "ok-parsed-key", "ok", pta, nonce, raw)
+	c := g.newCall(encFn, alg, "ok-parsed-key", "ok", pta, nonce, raw)
 	var ct, tag []byte
 	c.run(func() {
 		ct, tag, c.err = kitcrypto.EncryptSymmetric(pta.s(), alg, key, nonce.s(), nil)
@@ -491,11 +507,18 @@ func runParse(g *gctx, gr group) {
 	cta := g.argOrNil("ciphertext", clone(ct), 1)
 	taga := g.arg("tag", clone(tag), 3)
 	nonce = g.arg("nonce", nonceB, 2)
-	c = g.newCall("crypto.DecryptSymmetric[GCM]", alg, "ok-parsed-key", "ok", cta, nonce, taga, raw)
+	c = g.newCall(decFn, alg, "ok-parsed-key", "ok", cta, nonce, taga, raw)
 	c.run(func() {
 		var out []byte
 		out, c.err = kitcrypto.DecryptSymmetric(cta.s(), alg, key, nonce.s(), taga.s(), nil)
 		c.res = []namedRes{{"plaintext", out}}
 	})
 	c.judge()
+	if c.err == nil && c.panicV == nil {
+		// after the finalizers: the key object ParseKey returned must still decrypt the same message
+		keepRedo(decFn+" with the key parsed from "+f.name, func() bool {
+			out, err := kitcrypto.DecryptSymmetric(cta.s(), alg, key, nonce.s(), taga.s(), nil)
+			return err == nil && bytes.Equal(out, pt)
+		})
+	}
 }
